@@ -61,6 +61,8 @@ TRaiseLS == IsEv("LSEnd") /\ Ev.ret = "exc" /\ pc = "Raised" /\ Consume /\ UNCHA
 TEvalF0 == IsEv("EvalF") /\ ~Ev.exc /\ EvalF0(Ev.pt, Ev.fr) /\ Consume /\ Note(Feas(Ev, "x0"))
 TCallStop == IsEv("Call") /\ ~Ev.exc /\ Ev.who \in {"ftarget", "gtol"} /\ CallStop(Ev.who)
              /\ Consume /\ Note({})
+TLateCallStop == IsEv("Call") /\ ~Ev.exc /\ Ev.who \in {"ftarget", "gtol"} /\ LateCallStop(Ev.who)
+                 /\ Consume /\ Note({})
 TSkipStop == ~(IsEv("Call") /\ Ev.who = (IF pc = "StopT" THEN "ftarget" ELSE "gtol"))
              /\ SkipStop /\ Silent /\ Note({})
 TEarly   == IsEv("Return") /\ EarlyTarget /\ Silent /\ Note({})
@@ -142,7 +144,7 @@ TCrash == /\ IsEv("Raised") /\ pc \notin {"Raised", "Idle", "Done", "Lost"} /\ ~
 TCrashLS == /\ IsEv("LSEnd") /\ Ev.ret = "exc" /\ fault = "none"
             /\ UNCHANGED vars /\ Consume /\ Note({})
 
-Main == \/ TCrash \/ TCrashLS \/ TStart \/ TRestart \/ TRaise \/ TRaiseLS \/ TEvalF0 \/ TCallStop \/ TSkipStop \/ TEarly
+Main == \/ TCrash \/ TCrashLS \/ TStart \/ TRestart \/ TRaise \/ TRaiseLS \/ TEvalF0 \/ TCallStop \/ TLateCallStop \/ TSkipStop \/ TEarly
         \/ TNoEarly \/ TStencil \/ TEvalG0 \/ TScaler \/ TNoScaler \/ TUpd0 \/ TNoUpd0
         \/ TMem0First \/ TMem0Restart \/ TGuardEnter \/ TGuardExit \/ TLSBegin \/ TTrialF \/ TTrialG
         \/ TLSNone \/ TLSStep \/ TAccFEval \/ TAccFHit \/ TAccFSkip \/ TAccGEval \/ TAccGHit
